@@ -22,21 +22,36 @@ func spaces(thorough bool) []chanmc.Space {
 	for ti, typ := range types {
 		th := chanmc.Thresholds(typ, 6000, 200, 1300)
 		openerB := ti%2 == 0
-		// crash (= both sides reload) after every state-machine call of a
-		// two-HTLC schedule; a second crash during resynchronisation.
-		out = append(out, chanmc.Space{Dev: -1, P: chanmc.Params{Type: typ, OpenerB: openerB, MaxCuts: 2, CutOnlyInSync: !thorough, CrashPoints: true, Script: []chanmc.Intent{
+		// Shapes (every one with a crash = both sides reload after every state-machine call):
+		//  a: one HTLC each way (fail / settle), a second crash during resynchronisation
+		//  b: two HTLCs in the same direction, both settled (pipelined removals)
+		//  c: two consecutive fee updates by the opener plus one HTLC the other way
+		//  d: fee update + malformed failure
+		//  e: two consecutive fee updates, no HTLC
+		a := chanmc.Space{Dev: -1, P: chanmc.Params{Type: typ, OpenerB: openerB, MaxCuts: 2, CutOnlyInSync: !thorough, CrashPoints: true, Script: []chanmc.Intent{
 			{By: 0, Amt: sat(th[0], 0), Fate: "fail"}, {By: 1, Amt: sat(th[2]-1, 999), Fate: "settle"},
-		}}})
-		// two HTLCs in the same direction, both settled (pipelined removals), one crash anywhere
-		out = append(out, chanmc.Space{Dev: -1, P: chanmc.Params{Type: typ, OpenerB: openerB, MaxCuts: 1, CrashPoints: true, Script: []chanmc.Intent{
+		}}}
+		b := chanmc.Space{Dev: -1, P: chanmc.Params{Type: typ, OpenerB: openerB, MaxCuts: 1, CrashPoints: true, Script: []chanmc.Intent{
 			{By: 0, Amt: sat(35000, 0), Fate: "settle"}, {By: 0, Amt: sat(th[1]+1, 0), Fate: "settle"},
-		}}})
-		// fee update + malformed failure, one crash anywhere
+		}}}
+		c := chanmc.Space{Dev: -1, P: chanmc.Params{Type: typ, OpenerB: openerB, MaxCuts: 1, CrashPoints: true, Fees: []int64{6600, 5400},
+			Script: []chanmc.Intent{{By: 0, Amt: sat(45000, 0), Fate: "settle"}}}}
 		sc := []chanmc.Intent{{By: 1, Amt: sat(40000, 7), Fate: "malformed"}}
 		if thorough {
 			sc = append(sc, chanmc.Intent{By: 0, Amt: sat(th[1], 0), Fate: "settle"})
 		}
-		out = append(out, chanmc.Space{Dev: -1, P: chanmc.Params{Type: typ, OpenerB: !openerB, MaxCuts: 1, CrashPoints: true, Fees: []int64{7500}, Script: sc}})
+		d := chanmc.Space{Dev: -1, P: chanmc.Params{Type: typ, OpenerB: !openerB, MaxCuts: 1, CrashPoints: true, Fees: []int64{7500}, Script: sc}}
+		e := chanmc.Space{Dev: -1, P: chanmc.Params{Type: typ, OpenerB: !openerB, MaxCuts: 1, CrashPoints: true, Fees: []int64{6600, 5400}}}
+		switch {
+		case thorough:
+			out = append(out, a, b, c, d, e)
+		case ti == 0:
+			out = append(out, a, d, e)
+		case ti == 1:
+			out = append(out, b, c)
+		default:
+			out = append(out, b, d, e)
+		}
 	}
 	return out
 }
